@@ -18,7 +18,7 @@ theorem OpSummary.trans {f f1 f2 : FileH} {d d1 d2 : Dev} (h1 : OpSummary f d f1
       rcases h1.chain x hc with h | h
       · exact hx h
       · exact hfree h
-  refine ⟨h1.step.trans h2.step, ?_, ?_, ?_⟩
+  refine ⟨h1.step.trans h2.step, ?_, ?_, ?_, ?_⟩
   · intro x hx hfree
     have e1 := h1.view x hx hfree
     rw [h2.view x (hnot x hx hfree) (by rw [e1]; exact hfree), e1]
@@ -35,6 +35,8 @@ theorem OpSummary.trans {f f1 f2 : FileH} {d d1 d2 : Dev} (h1 : OpSummary f d f1
     by_cases h : d1.img.getByte q = d.img.getByte q
     · exact mayTouchData_mono h1 hrep hrep1 (h2.diff q (by rw [h]; exact hq))
     · exact h1.diff q h
+  · exact h1.trace.trans ((h2.trace.mono (fun c hc => ownOrFree_mono h1 hrep1 hc)
+      (fun c hc => ownOrFree_mono h1 hrep1 hc)).frame h1.step.geom.symm)
 
 theorem readxH_summary : ∀ (fuel : Nat) (h : FileH) (d : Dev) (need : Nat) (acc : List Nat), SimInv h d →
     OpSummary h d (readxH fuel h d need acc).2.1 (readxH fuel h d need acc).2.2
